@@ -115,19 +115,19 @@ PTerm(ts, p) ==
        [] t.k = "comment" -> PTerm(ts, q)
        [] OTHER -> <<ErrNode, q>>
 
-\* arguments after '(' : <<args, next>> or <<"error", next>>
+\* arguments after '(' : <<ok, args, next>>
 PArgs(ts, p, acc) ==
-  IF Peek(ts, p).k = "rpar" THEN <<acc, p + 1>>
+  IF Peek(ts, p).k = "rpar" THEN <<TRUE, acc, p + 1>>
   ELSE LET r == PExpr(ts, p)
            nx == Peek(ts, r[2]).k
        IN IF nx = "comma" THEN PArgs(ts, r[2] + 1, Append(acc, r[1]))
           ELSE IF nx = "rpar" THEN PArgs(ts, r[2], Append(acc, r[1]))
-          ELSE <<"error", r[2]>>
+          ELSE <<FALSE, <<>>, r[2]>>
 
 PFunction(ts, p, f) ==
   IF Peek(ts, p).k = "lpar"
   THEN LET r == PArgs(ts, p + 1, <<>>) IN
-       IF r[1] = "error" THEN <<ErrNode, r[2]>> ELSE <<Call(f, r[1]), r[2]>>
+       IF ~r[1] THEN <<ErrNode, r[3]>> ELSE <<Call(f, r[2]), r[3]>>
   ELSE LET r == PPow(ts, p) IN <<Call(f, <<r[1]>>), r[2]>>
 
 PSuffixLoop(ts, p, left) ==
@@ -189,14 +189,14 @@ DDefault == [m |-> "default", n |-> <<>>]
 IsIdent(t, w) == t.k = "ident" /\ t.s = w
 PlainInt(t) == t.k = "dec" /\ ~t.hasfrac /\ ~t.hasexp
 
-\* unit list after the arrow: names (>= 2) or "none"
+\* unit list after the arrow: names (>= 2) or <<>> when the text is not a unit list
 RECURSIVE PUnitList(_, _, _, _)
 PUnitList(ts, p, expecting, acc) ==
   LET t == Peek(ts, p) IN
   IF t.k = "ident" /\ expecting THEN PUnitList(ts, p + 1, FALSE, Append(acc, t.s))
   ELSE IF t.k \in {"comma", "semi"} /\ ~expecting THEN PUnitList(ts, p + 1, TRUE, acc)
-  ELSE IF t.k \in {"eof", "nl", "comment"} /\ ~expecting THEN (IF Len(acc) > 1 THEN acc ELSE "none")
-  ELSE "none"
+  ELSE IF t.k \in {"eof", "nl", "comment"} /\ ~expecting THEN (IF Len(acc) > 1 THEN acc ELSE <<>>)
+  ELSE <<>>
 
 U64Max == NSub(NPow2(64), <<1>>)
 
@@ -211,12 +211,13 @@ POffset(ts, p) ==
                               ((b.int[1] * 10 + b.int[2]) * 3600 + (d.int[1] * 10 + d.int[2]) * 60)]
   ELSE [ok |-> FALSE, secs |-> 0]
 
-PDigits(ts, p) ==    \* <<digits record or "error", next>>
+DError == [m |-> "error", n |-> <<>>]
+PDigits(ts, p) ==    \* <<digits record (m = "error" on failure), next>>
   LET t == Peek(ts, p) IN
   IF IsIdent(t, W_digits) THEN
      (IF PlainInt(Peek(ts, p + 1))
       THEN LET n == NFromDigits(Peek(ts, p + 1).int, 10) IN
-           IF NLe(n, U64Max) THEN <<[m |-> "digits", n |-> n], p + 2>> ELSE <<"error", p + 2>>
+           IF NLe(n, U64Max) THEN <<[m |-> "digits", n |-> n], p + 2>> ELSE <<DError, p + 2>>
       ELSE <<[m |-> "full", n |-> <<>>], p + 1>>)
   ELSE IF t.k = "ident" /\ t.s \in {W_frac, W_fraction, W_ratio} THEN <<[m |-> "frac", n |-> <<>>], p + 1>>
   ELSE IF t.k = "ident" /\ t.s \in {W_sci, W_scientific} THEN <<[m |-> "sci", n |-> <<>>], p + 1>>
@@ -242,10 +243,10 @@ PQueryMain(ts, p) ==
   ELSE
     LET a == l[2] + 1
         ul == PUnitList(ts, a, TRUE, <<>>)
-    IN IF ul # "none" THEN QConvert(l[1], [c |-> "list", names |-> ul], 0, DDefault)
+    IN IF ul # <<>> THEN QConvert(l[1], [c |-> "list", names |-> ul], 0, DDefault)
        ELSE
          LET dg == PDigits(ts, a) IN
-         IF dg[1] = "error" THEN QErr
+         IF dg[1].m = "error" THEN QErr
          ELSE
            LET bs == PBase(ts, dg[2]) IN
            IF bs[1] = -1 THEN QErr
@@ -254,7 +255,9 @@ PQueryMain(ts, p) ==
                  t == Peek(ts, q)
                  conv ==
                    IF t.k = "eof" THEN [c |-> "none"]
-                   ELSE IF t.k = "degree" THEN [c |-> "degree", deg |-> t.deg]
+                   \* a scale is a conversion target only on its own; otherwise the text is an expression
+                   \* (which is then refused: a scale operator cannot be part of a compound unit)
+                   ELSE IF t.k = "degree" /\ Peek(ts, q + 1).k = "eof" THEN [c |-> "degree", deg |-> t.deg]
                    ELSE IF t.k \in {"plus", "minus"} THEN
                         (IF POffset(ts, q).ok THEN [c |-> "offset", secs |-> POffset(ts, q).secs]
                          ELSE [c |-> "expr", e |-> PEq(ts, q)[1]])
